@@ -255,7 +255,7 @@ func Acquire(try func() bool, block func()) {
 		t.Locks++
 		// Quiescence barrier: a distinct, identity-derived instant per acquisition, so
 		// that which of two contenders comes first is decided by the seed.
-		time.Sleep(time.Duration(1 + Hash(cfg.Seed, 0x10c3, uint64(t.ID), t.next())%97))
+		time.Sleep(time.Duration(2 + Hash(cfg.Seed, 0x10c3, uint64(t.ID), t.next())%97))
 	} else {
 		time.Sleep(time.Duration(1))
 	}
@@ -278,6 +278,10 @@ func LockWait(attempt int) {
 		runtime.Gosched()
 		return
 	}
+	if attempt == 0 {
+		Barrier()
+		return
+	}
 	if stopped.Load() {
 		runtime.Goexit()
 	}
@@ -288,6 +292,19 @@ func LockWait(attempt int) {
 		anonPolls.Add(1)
 	}
 	time.Sleep(time.Duration(pollDelay(t, attempt)))
+}
+
+// Barrier sleeps a few identity-derived simulated nanoseconds: everything else that is
+// runnable at this instant runs until it parks before the caller continues.
+func Barrier() {
+	if !active.Load() {
+		return
+	}
+	if t := Current(); t != nil {
+		time.Sleep(time.Duration(2 + Hash(cfg.Seed, 0xba44, uint64(t.ID), t.next())%97))
+		return
+	}
+	time.Sleep(time.Duration(1))
 }
 
 // Mutex replaces sync.Mutex in instrumented code.
